@@ -628,7 +628,8 @@ func runOrfPhase(c *mon.Case, r *gen.Rand, phase bool) {
 	if phase && givenOrfs && r.Chance(0.2) {
 		// a sequence that aligns with no reference at all (the phaser reports it as removed): what comes back for it
 		// must own its data like every other result
-		junk = r.PickStr([]string{"CCCCCCCCCCCC", "CCCCCCCCCCCCCCCCCCCCC", "GGGGGGGGGGGG"})
+		// ... or whose only hit starts in its last one or two nucleotides (nothing left to translate)
+		junk = r.PickStr([]string{"CCCCCCCCCCCC", "CCCCCCCCCCCCCCCCCCCCC", "GGGGGGGGGGGG", "CCCCCCCCAT", "CCCCCCCCCCCA", "GGGGGGGGGGGATG"})
 		in.Names = append(in.Names, "junk")
 		in.Seqs = append(in.Seqs, junk)
 		in.Comments = append(in.Comments, "")
